@@ -347,7 +347,18 @@ def canonical_exprs(run):
         meta += e[:: max(1, len(e) // 400)]
     meta += ["Date(['d/m/yy', 'd/m/yyyy'], is_extensible=True)", "Date(['dd-mm-yyyy', 'd-m-yy', 'mm/dd/yy'])", "Email()", "HttpUrl()",
              "Email(True, True)", "WordContains(['ab', 'a', 'b'])", "WordStartsWith(['x', 'xy', 'y'])", "IPv4()", "IPv6()"]
-    return exprs + cls + lits + meta
+    # large calls: any de-duplication or batching through a set / dict shows up as a seed-dependent order
+    words = ['alpha', 'beta', 'gamma', 'delta', 'eps', 'zeta', 'eta', 'theta', 'iota', 'kappa', 'lam', 'mu', 'nu', 'xi', 'omi', 'pi', 'rho', 'sigma', 'tau', 'ups']
+    big = []
+    for n_ in (9, 10, 11, 12, 16, 17, 20):
+        w = words[:n_]
+        big += [f"Either(*{w!r})", f"Concat(*{w!r})", f"Either(*{[x[0] for x in w]!r})", f"WordContains({w!r})", f"WordStartsWith({w!r}, is_extensible=True)",
+                f"AnyFrom(*{[chr(0x61 + 2 * i) for i in range(n_)]!r})", f"AnyButFrom(*{[chr(0x3b1 + i) for i in range(n_)]!r})",
+                f"FollowedBy('x', *{w!r})", f"NotEnclosedBy('x', *{[x[:2] for x in w]!r})", f"Enclose('x', *{w!r})"]
+    from .lang import all_formats
+    f48 = all_formats()
+    big += [f"Date({f48[:n_]!r}, is_extensible=True)" for n_ in (3, 10, 16, 17, 33, 48)] + [f"Date({f48[::-1][:n_]!r})" for n_ in (5, 17, 48)]
+    return exprs + cls + lits + meta + big
 
 
 def equivalent_texts(a, b):
